@@ -205,7 +205,7 @@ func runC05_1(c *core.Ctx) {
 	allowedConn := map[string]bool{"fd": true, "loop": true, "proto": true, "isDatagram": true, "safeCtx": true}
 	if st, ok := v.connT.Underlying().(*types.Struct); ok {
 		for i := 0; i < st.NumFields(); i++ {
-			if !allowedConn[st.Field(i).Name()] {
+			if !allowedConn[nameOf(st.Field(i))] {
 				owned[st.Field(i)] = "conn." + st.Field(i).Name()
 			}
 		}
@@ -218,7 +218,7 @@ func runC05_1(c *core.Ctx) {
 	if cm := c.P.Named("", "connMatrix"); cm != nil {
 		if st, ok := cm.Underlying().(*types.Struct); ok {
 			for i := 0; i < st.NumFields(); i++ {
-				n := st.Field(i).Name()
+				n := nameOf(st.Field(i))
 				if n != "connCount" && n != "connCounts" {
 					owned[st.Field(i)] = "connMatrix." + n
 				}
@@ -477,7 +477,7 @@ func runC05_5(c *core.Ctx) {
 			cf := flow.CalleeFunc(f.Info, call)
 			if cf != nil && v.byObj[cf] != nil {
 				idx := -1
-				switch cf.Name() {
+				switch nameOf(cf) {
 				case "newStreamConn":
 					idx = 2
 				case "newUDPConn":
@@ -560,7 +560,7 @@ func runC05_6(c *core.Ctx) {
 				if nameOf(cf) == "Go" && strings.HasSuffix(cf.Pkg().Path(), "errgroup") {
 					// receiver must be <engine>.concurrency
 					r := flow.Recv(x)
-					ok := r != nil && flow.FieldOf(f.Info, r) != nil && flow.FieldOf(f.Info, r).Name() == "concurrency"
+					ok := r != nil && flow.FieldOf(f.Info, r) != nil && nameOf(flow.FieldOf(f.Info, r)) == "concurrency"
 					startup := f.Name == "gnet.(*engine).runEventLoops" || f.Name == "gnet.(*engine).activateReactors" || f.Name == "gnet.(*Client).Start"
 					c.Check(ok && startup, f.Name, "errgroup.Go("+exprStr(x.Args[0])+")", x.Pos(), "loop/ticker goroutine joined by engine.concurrency.Wait()",
 						"a goroutine is spawned outside the start-up functions or not on engine.concurrency: a loop could be started twice or never joined")
